@@ -61,6 +61,10 @@ structure DState where
   -- F6): the theorems' magnitude hypothesis fails from here on, and what follows in this history is
   -- the same finding – only the model/implementation comparison is kept
   tainted : Bool := false
+  -- the history began at instantiation or at a seeded book that satisfies the structural
+  -- invariant: every later state should (theorem `Sane_step`), so an order that cannot be
+  -- exited later in such a history is the contract's doing
+  startSane : Bool := false
   lastMig : Option MigMsg := none
   -- role lists as the accepted configuration requests left them (C05 is judged against
   -- these too, so a configuration change that silently fails to revoke a role is seen)
@@ -326,7 +330,7 @@ def judgeAccepted (env : Env) (s : State) (c : Call) (r : Response) (s' : State)
   | .modify _ _ _ _ _ _ _ _ => v
 
 /-- oracles for a refused execute step -/
-def judgeRefused (env : Env) (s : State) (c : Call) (isProbe : Bool) (carried : List String)
+def judgeRefused (env : Env) (s : State) (c : Call) (isProbe : Bool) (startSane : Bool) (carried : List String)
     (v : Verdict) : Verdict :=
   match c.msg with
   | .executeMatch a b p sz =>
@@ -336,26 +340,29 @@ def judgeRefused (env : Env) (s : State) (c : Call) (isProbe : Bool) (carried : 
   | .createBid id base fee price quote qs size =>
     v.check "C07" "C07_bidMustAccept" (!C07_bidMustAccept env s c id base fee price quote qs size)
   | .cancelAsk id =>
-    if isProbe && sane s then
-      v.check "C06" "C06_cancelAsk_live"
-        (!(match s.asks.get? id with | some a => a.owner == c.sender && c.funds.isEmpty | none => false))
+    if isProbe && (sane s || startSane) then
+      let live := !(match s.asks.get? id with | some a => a.owner == c.sender && c.funds.isEmpty | none => false)
+      let v := v.check "C16" "C16_reportedOrderCancellable" live
+      v.check "C06" "C06_cancelAsk_live" live
     else v
   | .cancelBid id =>
     let v := if isProbe && memS id carried then
         -- a bid carried over by an accepted migration must be cancellable by its owner
         v.check "C06" "C06_carriedOver_live"
           (match s.bids.get? id with | some (.v2 _) => !c.funds.isEmpty | _ => true) else v
-    if isProbe && sane s then
-      v.check "C06" "C06_cancelBid_live"
-        (!(match loadBid s id with | some b => b.owner == c.sender && c.funds.isEmpty | none => false))
+    if isProbe && (sane s || startSane) then
+      let live := !(match loadBid s id with | some b => b.owner == c.sender && c.funds.isEmpty | none => false)
+      -- the order a query reports cannot be cancelled: what is reported is not what a cancel acts on
+      let v := v.check "C16" "C16_reportedOrderCancellable" live
+      v.check "C06" "C06_cancelBid_live" live
     else v
   | .expireAsk id =>
-    if isProbe && sane s then
+    if isProbe && (sane s || startSane) then
       v.check "C06" "C06_expireAsk_live"
         (!((s.asks.get? id).isSome && memS c.sender s.info.executors && c.funds.isEmpty))
     else v
   | .expireBid id =>
-    if isProbe && sane s then
+    if isProbe && (sane s || startSane) then
       v.check "C06" "C06_expireBid_live"
         (!((loadBid s id).isSome && memS c.sender s.info.executors && c.funds.isEmpty))
     else v
@@ -411,7 +418,7 @@ def judge (d : DState) : Verdict × DState :=
         let v := v.check "C13" "coherent_refused" (!coherent env m)
         if p.deltas.isEmpty then v else v.check "C13" "refused_changes_nothing" false
     (v, { d with st := if implOk then some s' else d.st,
-                 shadow := ⟨[], []⟩, feeTracked := true,
+                 shadow := ⟨[], []⟩, feeTracked := true, startSane := if implOk then true else d.startSane,
                  roles := if implOk then some (m.approvers, m.executors) else d.roles })
   | .exec c | .probe c | .attempt c =>
     let isProbe := match call with | .probe _ => true | _ => false
@@ -443,7 +450,7 @@ def judge (d : DState) : Verdict × DState :=
                 (authorized { s with info := { s.info with approvers := aps, executors := exs } } c.sender c.msg)
             | none => v
           v.check "C11" "unknownKeys" (!hasUnknown p.deltas)
-        else judgeRefused env s c isProbe d.carried v
+        else judgeRefused env s c isProbe d.startSane d.carried v
       -- a refused request must not have written anything (the harness reports what a refused call
       -- left in storage before the rollback it emulates)
       let v := if !implOk && !p.deltas.isEmpty then
